@@ -2,11 +2,11 @@
 C17 (decidable fragment): propositional model of the `{{if}}` guards of the Go templates.
 
 `GF` (Facts/Types.lean) is a formula over numbered atoms; `eval` its meaning under a valuation of ALL atoms.
-`search` is a small tableau: it extends a partial assignment atom by atom and closes a branch as soon as the
-three-valued `peval` shows that the use-guard is false, the definition-guard is true or one of the axioms is
-false. `Proofs/Guards.lean` proves: `search … = true` implies `use → def` under EVERY valuation that satisfies the
-axioms (whatever atom order and whatever subset of the axioms is handed to it; so the relevance filter below needs
-no proof).  Core Lean only (the driver links this file).
+`search` is a small DPLL-style procedure: it picks an atom, replaces it by `true` / `false` in the use guard, the
+definition guard and the axioms (simplifying as it goes) and closes a branch as soon as the use guard has become
+false, the definition guard true or an axiom false. `Proofs/Guards.lean` proves: `search … = true` implies
+`use → def` under EVERY valuation of ALL atoms that satisfies the axioms (whatever atoms are picked).
+Core Lean only (the driver links this file).
 -/
 import TmVerif.Facts.Types
 namespace TmVerif.Guards
@@ -40,40 +40,75 @@ def substTrue (p : Nat → Bool) : GF → GF
   | .and f g => .and (substTrue p f) (substTrue p g)
   | .or f g => .or (substTrue p f) (substTrue p g)
 
-/-- Partial assignment: the FIRST entry for an atom counts. -/
-abbrev Assign := List (Nat × Bool)
+/-! ## The decision procedure: splitting with simplification and unit propagation -/
 
-def lookup (σ : Assign) (n : Nat) : Option Bool :=
-  match σ with
-  | [] => none
-  | (m, b) :: rest => if m == n then some b else lookup rest n
+def isTT : GF → Bool
+  | .tt => true
+  | _ => false
 
-/-- Three-valued evaluation under a partial assignment. -/
-def peval (σ : Assign) : GF → Option Bool
-  | .tt => some true
-  | .atom n => lookup σ n
-  | .not f => match peval σ f with
-    | some b => some (!b)
-    | none => none
-  | .and f g => match peval σ f, peval σ g with
-    | some false, _ => some false
-    | _, some false => some false
-    | some true, some true => some true
-    | _, _ => none
-  | .or f g => match peval σ f, peval σ g with
-    | some true, _ => some true
-    | _, some true => some true
-    | some false, some false => some false
-    | _, _ => none
+def isFF : GF → Bool
+  | .not .tt => true
+  | _ => false
 
-/-- The branch is closed: no extension of `σ` satisfies the axioms and `u` and falsifies `d`. -/
-def closed (axs : List GF) (u d : GF) (σ : Assign) : Bool :=
-  peval σ u == some false || peval σ d == some true || axs.any (fun a => peval σ a == some false)
+def sNot (f : GF) : GF := if isTT f then GF.ff else if isFF f then .tt else .not f
+def sAnd (f g : GF) : GF := if isFF f || isFF g then GF.ff else if isTT f then g else if isTT g then f else .and f g
+def sOr (f g : GF) : GF := if isTT f || isTT g then .tt else if isFF f then g else if isFF g then f else .or f g
 
-/-- Tableau over the atoms `as` (any list, any order). -/
-def search (axs : List GF) (u d : GF) : List Nat → Assign → Bool
-  | [], σ => closed axs u d σ
-  | a :: as, σ => closed axs u d σ || (search axs u d as ((a, true) :: σ) && search axs u d as ((a, false) :: σ))
+/-- `f` with atom `a` replaced by the constant `b`, simplified. -/
+def assign (a : Nat) (b : Bool) : GF → GF
+  | .tt => .tt
+  | .atom n => if n == a then (if b then .tt else GF.ff) else .atom n
+  | .not f => sNot (assign a b f)
+  | .and f g => sAnd (assign a b f) (assign a b g)
+  | .or f g => sOr (assign a b f) (assign a b g)
+
+/-- `f` simplified (constants folded). -/
+def simplify : GF → GF
+  | .tt => .tt
+  | .atom n => .atom n
+  | .not f => sNot (simplify f)
+  | .and f g => sAnd (simplify f) (simplify g)
+  | .or f g => sOr (simplify f) (simplify g)
+
+/-- Top-level conjuncts of a formula, `true` dropped. -/
+def conjuncts : GF → List GF
+  | .tt => []
+  | .and f g => conjuncts f ++ conjuncts g
+  | f => [f]
+
+def firstAtom : GF → Option Nat
+  | .tt => none
+  | .atom n => some n
+  | .not f => firstAtom f
+  | .and f g => (firstAtom f).orElse (fun _ => firstAtom g)
+  | .or f g => (firstAtom f).orElse (fun _ => firstAtom g)
+
+def unitAtom : GF → Option Nat
+  | .atom n => some n
+  | .not (.atom n) => some n
+  | _ => none
+
+/-- The next atom to split on: the atom of an axiom that has become a literal (unit propagation: one of the two
+branches closes at once), else the first atom of the use guard, else of the definition guard. Axioms are never
+split on otherwise, so a pair that does not hold is given up quickly. -/
+def pick (axs : List GF) (u d : GF) : Option Nat :=
+  ((axs.findSome? unitAtom).orElse (fun _ => firstAtom u)).orElse (fun _ => firstAtom d)
+
+/-- No valuation satisfies the axioms and `u` and falsifies `d` — visibly. -/
+def closed (axs : List GF) (u d : GF) : Bool := isFF u || isTT d || axs.any isFF
+
+def step (a : Nat) (b : Bool) (axs : List GF) : List GF := axs.flatMap (fun f => conjuncts (assign a b f))
+
+/-- `true` only if `u → d` under the axioms for every valuation (Proofs/Guards.lean); `false` = not shown. -/
+def search : Nat → List GF → GF → GF → Bool
+  | 0, axs, u, d => closed axs u d
+  | k + 1, axs, u, d =>
+    closed axs u d ||
+      match pick axs u d with
+      | none => false
+      | some a =>
+        search k (step a true axs) (assign a true u) (assign a true d) &&
+          search k (step a false axs) (assign a false u) (assign a false d)
 
 /-- An implication between guards that is known from outside the templates. -/
 structure Ax where
@@ -83,29 +118,9 @@ structure Ax where
 
 def Ax.formula (a : Ax) : GF := GF.imp a.hyp a.concl
 
-def insertNew (n : Nat) (l : List Nat) : List Nat := if l.contains n then l else l ++ [n]
-
-def dedup (l : List Nat) : List Nat := l.foldl (fun acc n => insertNew n acc) []
-
-def shares (l m : List Nat) : Bool := l.any (fun n => m.contains n)
-
-/-- Forward chaining from the atoms `s`: an axiom is relevant when its hypothesis has no atoms or shares one with
-the atoms reached so far; its conclusion's atoms are then reached too. -/
-def relevantStep (axs : List Ax) (s : List Nat) : List Nat :=
-  axs.foldl (fun acc a =>
-    if (atomsOf a.hyp).isEmpty || shares (atomsOf a.hyp) acc then dedup (acc ++ atomsOf a.hyp ++ atomsOf a.concl) else acc) s
-
-def relevantAtoms (axs : List Ax) : Nat → List Nat → List Nat
-  | 0, s => s
-  | k + 1, s => relevantAtoms axs k (relevantStep axs s)
-
-/-- `use → def` under the axioms, decided by `search` over the atoms of `u`, then `d`, then the atoms reached by
-forward chaining (3 rounds) with the axioms whose hypothesis lies among them. -/
+/-- `use → def` under the axioms. -/
 def checkImp (axs : List Ax) (u d : GF) : Bool :=
-  let base := dedup (atomsOf u ++ atomsOf d)
-  let reach := relevantAtoms axs 3 base
-  let rel := axs.filter (fun a => (atomsOf a.hyp).isEmpty || shares (atomsOf a.hyp) reach)
-  search (rel.map Ax.formula) u d reach []
+  search 64 (axs.flatMap (fun a => conjuncts (simplify a.formula))) (simplify u) (simplify d)
 
 /-- Valuation that makes exactly the listed atoms true. -/
 def valOf (trues : List Nat) : Nat → Bool := fun n => trues.contains n
